@@ -620,6 +620,32 @@ func main() {
 					}
 				}
 			})
+			// the same listing orders for a scan that FAILS late (two detectors disagree on an advisory):
+			// what such a scan still reports must be as sorted and as order-independent as any other result
+			conflict := &scankit.Det{N: "det-2", Fn: func(_ context.Context, _ *scalibrfs.ScanRoot, _ *packageindex.PackageIndex) ([]*detector.Finding, error) {
+				a := adv("ADV-1")
+				a.Title = "another body for ADV-1"
+				return []*detector.Finding{{Adv: a, Extra: "c"}}, nil
+			}}
+			detsC := append(append([]detector.Detector{}, dets...), conflict)
+			_, refC := scan([]*memfs.Node{root}, exs, detsC)
+			allOrders(root, func(desc string) {
+				res, o := scan([]*memfs.Node{root}, exs, detsC)
+				r.Evals.Add(1)
+				what := ""
+				switch {
+				case !eq(o.pkgKeys, refC.pkgKeys):
+					what = "package-order-depends-on-enumeration"
+				case !eq(o.status, refC.status) || o.overall != refC.overall:
+					what = "status-depends-on-enumeration"
+				case sortedness(res) != "":
+					what = "not-sorted"
+				}
+				if what != "" {
+					r.Violation(what, fmt.Sprintf("tree %s listing %s, scan failing on conflicting advisories: pkgs %q status %v (%s); canonical listing pkgs %q status %v; %s", ts, desc, o.pkgKeys, o.status, o.overall, refC.pkgKeys, refC.status, sortedness(res)),
+						map[string]any{"tree": ts, "listing": desc, "conflicting_advisories": true})
+				}
+			})
 			if nt {
 				r.Nontrivial.Add(int64(cnt)) // distinct (tree, listing-permutation vector) pairs with >=2 packages and a directory with >=2 entries
 			}
@@ -706,5 +732,5 @@ func main() {
 	failingFamily(r)
 	r.Set("bound", map[string]any{"max_nodes_completed": completed})
 	r.Assume("Go map iteration order itself cannot be controlled; its consequence (the order of the extractor/detector lists) is enumerated instead")
-	r.Finish(fmt.Sprintf("every tree with <=%d nodes over {dir a, dir b, f1.pkg..f4.pkg with tying contents (names X, X, X-a, X)} x every combination of per-directory listing permutations x 10 extractor-list orders (all rotations of the canonical order and of its reverse) x 2 detector-list orders, all compared with the canonical-order scan of the same tree (key sequences, full multisets, statuses) + sortedness; plus every ordered selection of 2..3 roots among the top-level sub-trees and the whole tree vs the union of single-root scans, virtual roots and host-path roots with StoreAbsolutePath; plus the failing family: one extractor failing on N files (N up to 25, thorough 257) listed in 5 orders and split over two roots, statuses compared up to the order of failure-reason lines (with one result-yielding file first, last and in between); a root with a .gitignore and a skipped directory under every listing order; two such roots, both root orders, vs the union of single-root scans; a directory whose listing fails at each entry read (3 listing orders x 2 listing interfaces x 2 error kinds): no package twice. non-trivial = (tree, listing vector) with >=2 packages and a directory with >=2 entries, or a multi-root selection with >=1 package", maxNodes), completed == maxNodes)
+	r.Finish(fmt.Sprintf("every tree with <=%d nodes over {dir a, dir b, f1.pkg..f4.pkg with tying contents (names X, X, X-a, X)} x every combination of per-directory listing permutations x 10 extractor-list orders (all rotations of the canonical order and of its reverse) x 2 detector-list orders, all compared with the canonical-order scan of the same tree (key sequences, full multisets, statuses) + sortedness; the same listing orders for a scan that fails late on conflicting advisories; plus every ordered selection of 2..3 roots among the top-level sub-trees and the whole tree vs the union of single-root scans, virtual roots and host-path roots with StoreAbsolutePath; plus the failing family: one extractor failing on N files (N up to 25, thorough 257) listed in 5 orders and split over two roots, statuses compared up to the order of failure-reason lines (with one result-yielding file first, last and in between); a root with a .gitignore and a skipped directory under every listing order; two such roots, both root orders, vs the union of single-root scans; a directory whose listing fails at each entry read (3 listing orders x 2 listing interfaces x 2 error kinds): no package twice. non-trivial = (tree, listing vector) with >=2 packages and a directory with >=2 entries, or a multi-root selection with >=1 package", maxNodes), completed == maxNodes)
 }
